@@ -160,7 +160,7 @@ func runC18RdnsCache(c *fw.Ctx, id string) {
 	resetProcessState()
 	r := c.Rng
 	addrs := []string{"8.8.8.8", "2001:db8::1", "203.0.113.9"}
-	gen := map[string]int{}  // resolver generation per address (names change every query so stale data is visible)
+	gen := map[string]int{}   // resolver generation per address (names change every query so stale data is visible)
 	fail := map[string]bool{} // whether the next query fails
 	queries := map[string]int{}
 	rs := installResolver(func(addr string) ([]string, error, time.Duration) {
@@ -291,7 +291,7 @@ var cacheModel = porcupine.Model{
 		}
 		return false, s
 	},
-	Equal: func(a, b interface{}) bool { return a.(regState) == b.(regState) },
+	Equal:             func(a, b interface{}) bool { return a.(regState) == b.(regState) },
 	DescribeOperation: func(in, out interface{}) string { return fmt.Sprintf("%+v -> %+v", in, out) },
 }
 
